@@ -4,23 +4,43 @@ from concurrent.futures import ThreadPoolExecutor
 from vcommon import Check
 
 
-def run_model_parallel(c, drv, cases="cases.txt", out="model.obs", workers=6):
+def run_model_parallel(c, drv, cases="cases.txt", out="model.obs", workers=8):
     """Run the extracted model over the cases, split over several processes.
     Revision 5/6 lines (Algorithm 2.B in extracted SHA-2/AES) cost seconds each and are
     spread evenly; everything else is dealt round-robin."""
     lines = [ln for ln in open(os.path.join(c.work, cases)) if ln.strip()]
 
+    def cost(ln):
+        """rough cost in runs of Algorithm 2.B (about 4 s each in the extracted model; more for long passwords)"""
+        f = ln.split(None, 16)
+        if len(f) < 4:
+            return 0.0
+        if f[1] == "A" and f[2] in ("5", "6"):
+            return 4.0 * (3.0 if len(f) > 13 and len(f[13]) > 200 else 1.0)
+        if f[1] == "C" and f[2] == "5":
+            return 4.0
+        if f[1] == "F" and f[2] == "5":
+            return 4.0 if f[4] != "255" else 0.1
+        if f[1] == "G" and (" R i 6 " in ln or " R i 5 " in ln):
+            return 3.0
+        return 0.0
+
     def heavy(ln):
-        f = ln.split()
-        return len(f) > 3 and ((f[1] == "A" and f[2] in ("5", "6")) or (f[1] == "C" and f[2] == "5"))
+        return cost(ln) >= 1.0
 
     parts = [[] for _ in range(workers)]
-    hv = [ln for ln in lines if heavy(ln)]
+    load = [0.0] * workers
+    hv = sorted((ln for ln in lines if heavy(ln)), key=cost, reverse=True)
     lt = [ln for ln in lines if not heavy(ln)]
-    for i, ln in enumerate(hv):
-        parts[i % workers].append(ln)
-    for i, ln in enumerate(lt):
-        parts[(workers - 1 - i) % workers].append(ln)
+    for ln in hv:  # longest processing time first
+        i = load.index(min(load))
+        parts[i].append(ln)
+        load[i] += cost(ln)
+    per_light = (sum(load) / max(1, len(lt))) if False else 0.006  # a light line is a few milliseconds
+    for ln in lt:
+        i = load.index(min(load))
+        parts[i].append(ln)
+        load[i] += per_light
 
     def one(i):
         inp = os.path.join(c.work, "cases.%d.txt" % i)
